@@ -327,19 +327,20 @@ inline void lemma_table_defects() {
 VT_HARNESS(h_enc_tw) { vt::lemma_encode<vt::TW>(); }
 VT_HARNESS(h_enc_tr1) { vt::lemma_encode<vt::TR1>(); }
 VT_HARNESS(h_enc_tn) { vt::lemma_encode<vt::TN>(); }
-VT_HARNESS(h_dec_tw_ped) { vt::lemma_decode<vt::TW, nop::PedanticBufferReader, 14, false>(); }
-VT_HARNESS(h_dec_tw_buf) { vt::lemma_decode<vt::TW, nop::BufferReader, 14, false>(); }
-VT_HARNESS(h_dec_tw_bnd) { vt::lemma_decode<vt::TW, vt::BndR, 14, false>(); }
-VT_HARNESS(h_dec_tr1_ped) { vt::lemma_decode<vt::TR1, nop::PedanticBufferReader, 14, false>(); }
-VT_HARNESS(h_dec_tn_ped) { vt::lemma_decode<vt::TN, nop::PedanticBufferReader, 18, false>(); }
-VT_HARNESS(h_trunc_tw_ped) { vt::lemma_truncate<vt::TW, nop::PedanticBufferReader, 14>(); }
-VT_HARNESS(h_trunc_tw_buf) { vt::lemma_truncate<vt::TW, nop::BufferReader, 14>(); }
-VT_HARNESS(h_trunc_tr1_ped) { vt::lemma_truncate<vt::TR1, nop::PedanticBufferReader, 14>(); }
+VT_HARNESS(h_dec_tw_ped) { vt::lemma_decode<vt::TW, nop::PedanticBufferReader, 10, false, false>(); }
+VT_HARNESS(h_dec_tw_ped14) { vt::lemma_decode<vt::TW, nop::PedanticBufferReader, 14, false, false>(); }
+VT_HARNESS(h_dec_tw_buf) { vt::lemma_decode<vt::TW, nop::BufferReader, 14, false, false>(); }
+VT_HARNESS(h_dec_tw_bnd) { vt::lemma_decode<vt::TW, vt::BndR, 14, false, false>(); }
+VT_HARNESS(h_dec_tr1_ped) { vt::lemma_decode<vt::TR1, nop::PedanticBufferReader, 10, false, false>(); }
+VT_HARNESS(h_dec_tn_ped) { vt::lemma_decode<vt::TN, nop::PedanticBufferReader, 18, false, false>(); }
+VT_HARNESS(h_trunc_tw_ped) { vt::lemma_truncate<vt::TW, nop::PedanticBufferReader, 10, false>(); }
+VT_HARNESS(h_trunc_tw_buf) { vt::lemma_truncate<vt::TW, nop::BufferReader, 14, false>(); }
+VT_HARNESS(h_trunc_tr1_ped) { vt::lemma_truncate<vt::TR1, nop::PedanticBufferReader, 10, false>(); }
 VT_HARNESS(h_rt_tw_ped_ped) { vt::lemma_roundtrip<vt::TW, nop::PedanticBufferWriter, nop::PedanticBufferReader>(); }
 VT_HARNESS(h_rt_tn_ped_ped) { vt::lemma_roundtrip<vt::TN, nop::PedanticBufferWriter, nop::PedanticBufferReader>(); }
 VT_HARNESS(h_cap_tw_bw) { vt::lemma_capacity<vt::TW, nop::BufferWriter, 14>(); }
 VT_HARNESS(h_faultw_tw) { vt::lemma_fault_write<vt::TW>(); }
-VT_HARNESS(h_faultr_tw) { vt::lemma_fault_read<vt::TW, 14>(); }
+VT_HARNESS(h_faultr_tw) { vt::lemma_fault_read<vt::TW, 10, false>(); }
 VT_HARNESS(h_defects_tw) { vt::lemma_table_defects(); }
 VT_HARNESS(h_ver_tw_tr1) { vt::lemma_versions<vt::TW, vt::TR1, nop::PedanticBufferReader>(); }
 VT_HARNESS(h_ver_tr1_tw) { vt::lemma_versions<vt::TR1, vt::TW, nop::PedanticBufferReader>(); }
